@@ -32,7 +32,9 @@ func (p *c03) Rule() string {
 	return "even cases: one generated scenario biased to contact-changing actions, query groups, location fields; after every sprint the contact JSON before is replayed through the sprint's contact events by an independent ~150-line model and compared with the contact JSON after. odd cases: one generated contact x 12 generated modifiers (every type; multi-URN / multi-group payloads with new+present, duplicates, invalid; values at/beyond MaxFieldChars) each applied twice through modifiers.Apply: modified <=> contact JSON changed <=> change event logged; replay; second application is a no-op. Non-trivial = a sprint/modifier changed the contact or emitted a contact event; distinct = SHA of scenario / (contact, modifier list)."
 }
 
-func (p *c03) Directed() []string { return []string{"urns-modifiers", "name-truncate", "archived-add-group", "each-modifier-twice", "msg-trigger-last-seen", "refresh-on-resume"} }
+func (p *c03) Directed() []string {
+	return []string{"urns-modifiers", "name-truncate", "archived-add-group", "each-modifier-twice", "msg-trigger-last-seen", "refresh-on-resume"}
+}
 
 func (p *c03) Floors(tier string) []string {
 	return []string{"clause.engine_replay", "clause.engine_replay_changed", "clause.mod_modified_iff_changed", "clause.mod_modified_iff_event", "clause.mod_replay", "clause.mod_second_noop",
